@@ -44,7 +44,7 @@ CHECKS["C12"] = dict(
     category="exploration",
     design="DESIGN.md section 4, C12",
     technique="bounded-exhaustive enumeration of byte buffers (word alphabet x length x trailing bytes) on the real MessageView, reference predicate in u128 arithmetic + reference layout as oracle",
-    text="Every buffer of <= 7 (quick) / 8 (thorough) little-endian words over a 13-word alphabet chosen to hit every header shape (N = 0..8, N beyond the buffer, N near 2^29 / 2^31 / 2^32, equal / decreasing / out-of-range offsets and tags, 0xFF vs 0x100) with 0-3 trailing bytes, plus one more word over an 8-word alphabet, is given to MessageView::new (borrowed and owned storage). Accept/reject must equal the format predicate; on accepted views len/is_empty/tags/iter/get/get_value/find/find_tag/tags_match_exactly are compared with the reference layout for indices 0..N+2 and usize::MAX, by position and content; nothing may panic.",
+    text="Every buffer of <= 7 (quick) / 8 (thorough) little-endian words over a 13-word alphabet chosen to hit every header shape (N = 0..8, N beyond the buffer, N near 2^29 / 2^31 / 2^32, equal / decreasing / out-of-range offsets and tags, 0xFF vs 0x100) with 0-3 trailing bytes, plus one more word over an 8-word alphabet, is given to MessageView::new (borrowed and owned storage). Long headers (N = 2..40, strictly increasing tags and offsets except for exactly one descent or equality at every position) cover scans that work in blocks. Accept/reject must equal the format predicate; on accepted views len/is_empty/tags/iter/get/get_value/find/find_tag/tags_match_exactly are compared with the reference layout for indices 0..N+2 and usize::MAX, by position and content; nothing may panic.",
     note="Values outside the word alphabet are not tried; the predicate only compares words with each other and with the buffer length, and the alphabet has representatives on both sides of each comparison.",
 )
 
@@ -70,16 +70,16 @@ CHECKS["C03"] = dict(
     engine="iovec_mc",
     category="model_checking",
     design="DESIGN.md section 4, C03",
-    technique="stateless model checking: exhaustive DFS over all operation histories (27-op alphabet, depth-bounded, fresh + non-initial starts) of the real OwningIovec against a reference pipe model",
-    text="All histories over a 27-op producer/consumer alphabet (size-adaptive, copied, borrowed, anchored pushes around the 64/256-byte thresholds, extend, placeholder register/backfill, clear, take, arena flush/swap/exhaustion, consume/advance/pop/Read with partial amounts) to depth 5 (quick) / 6 (thorough), a 12-op reduced alphabet to depth 6 / 8, three construction paths and five non-initial seed states. " + IOVEC_COMMON,
+    technique="stateless model checking: exhaustive DFS over all operation histories (28-op alphabet, depth-bounded, fresh + non-initial starts) of the real OwningIovec against a reference pipe model",
+    text="All histories over a 28-op producer/consumer alphabet (size-adaptive, copied, borrowed, anchored pushes around the 64/256-byte thresholds, extend, placeholder register/backfill, clear, take, arena flush/swap/exhaustion, consume/advance/pop/Read with partial amounts) to depth 5 (quick) / 6 (thorough), a 14-op reduced alphabet (including an AnchoredSlice taken from the read side, held across clear()/take() and pushed back later) to depth 6 / 8, three construction paths and five non-initial seed states. " + IOVEC_COMMON,
     note="Histories longer than the depth bound from states no seed reaches, payload sizes other than the threshold set and arena chunks beyond the first sizes of the growth sequence are not covered.",
 )
 CHECKS["C04"] = dict(
     engine="iovec_mc",
     category="model_checking",
     design="DESIGN.md section 4, C04",
-    technique="stateless model checking: exhaustive DFS over all register/backfill/push/consume histories (15-op alphabet, depth 7-8) of the real OwningIovec against a reference model with marked holes",
-    text="All histories over a 15-op backpatch alphabet (placeholders of size 0/1/2 with up to 5 in flight, backfill of the 1st/2nd/3rd/last pending in any order, merging and non-merging pushes, cache flush, slice and byte consumption) to depth 7 (quick) / 8 (thorough), plus seeds. The visible length may never reach the earliest hole, iovs/flatten/stable_consumer succeed exactly when no hole is pending, and after all backfills everything is consumable with the backfilled values. " + IOVEC_COMMON,
+    technique="stateless model checking: exhaustive DFS over all register/backfill/push/consume histories (16-op alphabet, depth 7-8) of the real OwningIovec against a reference model with marked holes",
+    text="All histories over a 16-op backpatch alphabet (copies sized to leave exactly 4 bytes in the current arena chunk so that placeholders straddle a chunk end, placeholders of size 0/1/2 with up to 5 in flight, backfill of the 1st/2nd/3rd/last pending in any order, merging and non-merging pushes, cache flush, slice and byte consumption) to depth 7 (quick) / 8 (thorough), plus seeds. The visible length may never reach the earliest hole, iovs/flatten/stable_consumer succeed exactly when no hole is pending, and after all backfills everything is consumable with the backfilled values. " + IOVEC_COMMON,
     note="More than 5 placeholders in flight and placeholder sizes above 2 are not enumerated.",
 )
 CHECKS["C05"] = dict(
@@ -121,7 +121,7 @@ CHECKS["C07"] = dict(
     category="model_checking",
     design="DESIGN.md section 4, C07",
     technique="bounded-exhaustive enumeration: encoder outputs vs an independent canonical encoder; decoder accept set on ALL byte strings over a 10-letter alphabet (tiny limits) and on the whole 1-byte / 2-byte header space (production limits) vs a reference decoder",
-    text="Encoder: every output of the C01 families is compared byte-for-byte with a reference encoder that hard-codes 252 / 64008 / 253. Decoder, tiny limits: ALL byte strings over {0,1,2,3,5,6,FC,FD,FE,FF} up to length 6 (quick) / 7 (thorough), whole, under every 2-way split x {borrow, copy} and every 3-way split: accept/reject and output must equal the reference decoder and must not depend on the segmentation. Decoder, production limits: all 256 first-header bytes and, after an empty first chunk, all 65 536 second-header byte pairs, each with the body a lenient reading would expect (short by one, exact, exact + terminators), whole and split inside / after the header; truncations of a 3-chunk message around every header; out-of-radix header bytes after long borrowed chunks. " + HCOBS_COMMON,
+    text="Encoder: every output of the C01 families is compared byte-for-byte with a reference encoder that hard-codes 252 / 64008 / 253. Decoder, tiny limits: ALL byte strings over {0,1,2,3,5,6,FC,FD,FE,FF} up to length 6 (quick) / 7 (thorough), whole, under every 2-way split x {borrow, copy}, every 3-way split and with zero-length calls between and after the pieces: accept/reject and output must equal the reference decoder and must not depend on the segmentation. Decoder, production limits: all 256 first-header bytes and, after an empty first chunk, all 65 536 second-header byte pairs, each with the body a lenient reading would expect (short by one, exact, exact + terminators), whole and split inside / after the header; truncations of a 3-chunk message around every header; out-of-radix header bytes after long borrowed chunks. " + HCOBS_COMMON,
     note="Interoperability is judged against the reference codec written here from the format description.",
 )
 CHECKS["C09"] = dict(
@@ -129,7 +129,7 @@ CHECKS["C09"] = dict(
     category="model_checking",
     design="DESIGN.md section 4, C09",
     technique="exhaustive enumeration of drain schedules (operation histories of feed / drain calls) on the real Encoder and Decoder at tiny and production limits, plus long periodic unrollings with a full drain after every call; prefix and lag invariants checked after every call",
-    text="Every input of the tiny-limit families with every 2-way segmentation x all 36 drain-operation pairs on both encoder and decoder, the production boundary family with rotating drain operations, and every call-size schedule of length <= 2 (quick) / 3 (thorough) over {1, 100, 1000, 5000, 70000, 1 MiB+1} x {copy, borrow, encode_read} x 4 payload shapes x 3 drain APIs x {encoder, encoder->decoder} streamed for 16 MiB (quick) / 64-256 MiB (thorough). After every call: what is consumable extends what was drained to a prefix of the final output, each drain returns exactly what it removed, encoder lag <= largest arena chunk seen + 64008 + 2, decoder lag = 0. " + HCOBS_COMMON,
+    text="Every input of the tiny-limit families with every 2-way segmentation x all 36 drain-operation pairs on both encoder and decoder, the production boundary family with rotating drain operations, and every call-size schedule of length <= 2 (quick) / 3 (thorough) over {1, 100, 1000, 5000, 70000, 1 MiB+1} x {copy, borrow, encode_read} x 4 payload shapes x 3 drain APIs x {encoder, encoder->decoder} streamed for 8 MiB (quick) / 64-256 MiB (thorough). After every call: what is consumable extends what was drained to a prefix of the final output, each drain returns exactly what it removed, encoder lag <= largest arena chunk seen + 64008 + 2, decoder lag = 0. " + HCOBS_COMMON,
     note="Unbounded stream length is approached by periodic unrolling; an aperiodic schedule that drifts for longer than the unrolling is not covered.",
 )
 CHECKS["C10"] = dict(
@@ -157,13 +157,13 @@ CHECKS["C08"] = dict(
     category="fault_enumeration",
     design="DESIGN.md section 4, C08",
     technique="exhaustive enumeration of byte streams x block sizes x reader deviation schedules x arena states on the real StreamChunker::pump, tiling oracle",
-    text=STREAM_FAMILIES + " Arena states: fresh, one byte remaining, shared with a live iovec. Up to Eof the Data slices and sentinels must concatenate to the stream, each reported offset must be the absolute end of its chunk, no Data chunk may be empty or contain FE FD, FE|FD may not straddle two consecutive Data chunks, Eof only at the real end and sticky, every Data slice must stay alive and intact while held (also after the arena flushes its cache), no leak.",
+    text=STREAM_FAMILIES + " Arena states: fresh, 1..9 bytes remaining in the current chunk (so the carried-over byte of a held-back FE meets every small remainder), shared with a live iovec. Up to Eof the Data slices and sentinels must concatenate to the stream, each reported offset must be the absolute end of its chunk, no Data chunk may be empty or contain FE FD, FE|FD may not straddle two consecutive Data chunks, Eof only at the real end and sticky, every Data slice must stay alive and intact while held (also after the arena flushes its cache), no leak.",
     note="Hard I/O errors are outside the enumerated schedules.",
 )
 CHECKS["C05"]["engine"] = "iovec_mc+hcobs_mc+stream_mc"
 CHECKS["C05"]["text"] += " StreamChunker chunks, everything the StreamReader shows its judge and every returned record are checked the same way over the crash-history streams."
 CHECKS["C10"]["engine"] = "iovec_mc+hcobs_mc+stream_mc"
-CHECKS["C10"]["text"] += " StreamReader: 12 MiB (quick) / 48 MiB (thorough) streams of seven kinds (empty, invalid, 1-byte, 300-byte, 5000-byte records, delimiter-free invalid garbage, a delimiter-free endless record the judge declares too big) x block sizes {4096, 65536, default} with the same footprint and chunk-plateau bounds, and a leak check after every StreamReader / StreamChunker run."
+CHECKS["C10"]["text"] += " StreamReader: 8 MiB (quick) / 48 MiB (thorough) streams of seven kinds (empty, invalid, 1-byte, 300-byte, 5000-byte records, delimiter-free invalid garbage, a delimiter-free endless record the judge declares too big) x block sizes {4096, 65536, default} with the same footprint and chunk-plateau bounds, and a leak check after every StreamReader / StreamChunker run."
 
 CHECKS["C13"] = dict(
     engine="abt_loom",
